@@ -112,7 +112,10 @@ theorem real_fixed_special {α} (ex : Extract α) (nan pinf ninf : α) (s : List
     (cleanUp s ≠ spNaN → spPosInf.contains (cleanUp s) = true → tryConvertRealFixed ex nan pinf ninf s = some pinf) ∧
     (cleanUp s ≠ spNaN → spPosInf.contains (cleanUp s) = false → spNegInf.contains (cleanUp s) = true →
       tryConvertRealFixed ex nan pinf ninf s = some ninf) := by
-  refine ⟨fun h => ?_, fun h1 h2 => ?_, fun h1 h2 h3 => ?_⟩ <;> unfold tryConvertRealFixed <;> simp [*]
+  refine ⟨fun h => ?_, fun h1 h2 => ?_, fun h1 h2 h3 => ?_⟩ <;> unfold tryConvertRealFixed
+  · simp only [h, if_true]
+  · simp only [h1, h2, if_true, if_false]
+  · simp only [h1, h2, h3, if_true, if_false, Bool.false_eq_true]
 
 /-- **"fails when characters trail the number"** for the conversions of the current tree (translator-tied: this is false,
 and the check alarms, if `String.cpp` goes back to `return !sstream.fail();`) -/
@@ -171,10 +174,10 @@ example : tryConvertGeneric extractDouble ("1".toList ++ '.' :: ("5".toList ++ "
   constructor
   · rw [decimal_literal_accept_iff "1".toList "5".toList "abc".toList (by decide) (by decide) (by decide)
       (fun c r h => by injection h with e _; rw [← e]; decide) ⟨false, 3 / 2⟩ (by decide +kernel)]
-    decide
+    decide +kernel
   · rw [decimal_literal_accept_iff "1".toList "5".toList " ".toList (by decide) (by decide) (by decide)
       (fun c r h => by injection h with e _; rw [← e]; decide) ⟨false, 3 / 2⟩ (by decide +kernel)]
-    decide
+    decide +kernel
 
 /-- the `int` path (generic template) is right -/
 theorem int_rejects_15abc :
@@ -293,7 +296,7 @@ theorem normalizeNL_of_noCR (s : List Char) (h : '\r' ∉ s) : normalizeNL s = s
     have hc : c ≠ '\r' := fun e => h (by simp [e])
     have hr : '\r' ∉ r := fun e => h (by simp [e])
     cases r with
-    | nil => simp [normalizeNL, hc]
+    | nil => simp [normalizeNL]
     | cons d r' =>
       have : normalizeNL (c :: d :: r') = c :: normalizeNL (d :: r') := by
         simp [normalizeNL, hc]
